@@ -96,9 +96,7 @@ type progOpts struct {
 	jsSafe     bool // stay inside the subset both backends define (C04)
 	taint      bool
 	directives bool
-<<<<<<< HEAD
 	msgPO      bool // C11: messages come from progMsgHook (PO-representable shapes), and are frequent
-=======
 	scope      bool // C02: small name pool (shadowing), scope probes, aliases, attribute-style params, more data="all"/data="$e"
 	// options added for C09 (all off by default; none consumes randomness when off)
 	ij          bool                  // some prints read the injected data: {$ij.s}, {$ij.n}
@@ -110,7 +108,6 @@ type progOpts struct {
 	maxTemplates int      // > 0: bundles of 1..maxTemplates templates instead of 1..4
 	shapes       bool     // print-directive chains of every length 0..8 (marker / cancelling / non-cancelling mixes), list literals of 0..8 items
 	chainExtra   []string // user-installed non-cancelling directives usable in chains, e.g. "|bang"
->>>>>>> main
 }
 
 // progMsgHook, when set (by a property's tagged file) and progOpts.msgPO is on,
@@ -494,13 +491,12 @@ func (g *progGen) block(env genv, d int, n int) string {
 	var sb strings.Builder
 	var pendingLets []gvar
 	for i := 0; i < n; i++ {
-<<<<<<< HEAD
 		if g.o.msgPO && g.r.Chance(30) {
 			sb.WriteString(g.msg(env, d))
-=======
+			continue
+		}
 		if g.o.scope && d > 0 && g.r.Chance(18) {
 			sb.WriteString(g.scopeProbe(env, d))
->>>>>>> main
 			continue
 		}
 		c := g.r.Intn(24)
